@@ -55,4 +55,59 @@ theorem C18_spec_holds (k : Kind) (shape : Shape) (blocking : Bool) (limit start
 example : (call .readBuf [8] false 1000000000 0 [.again, .moved 8] [.full]).ret = -1 := by decide
 example : (call .readBuf [8] true 1000000000 0 [.again, .moved 8] [.full]).ret = 8 := by decide
 
+/-- `connect` on a descriptor the caller made non-blocking never waits: it returns the kernel's
+answer (0, or −1 with EINPROGRESS / EINTR / the error) after the one inner call. -/
+theorem C18_connect_nonblocking_never_waits (limit start : Nat) (first : CResp) (waits : List WResp) :
+    (connectCall false limit start first waits).waits = [] ∧ (connectCall false limit start first waits).elapsed = 0 := by
+  unfold connectCall
+  cases first <;> simp
+
+/-- `connect` leaves the descriptor's blocking mode as the caller set it, whatever the outcome. -/
+theorem C18_connect_flag_restored (blocking : Bool) (limit start : Nat) (first : CResp) (waits : List WResp) :
+    (connectCall blocking limit start first waits).blockingAfter = blocking := by
+  unfold connectCall
+  cases first <;> simp only <;> (try rfl) <;> (split <;> (try rfl) <;> (split <;> (try rfl) <;> (split <;> rfl)))
+
+/-- A blocking `connect` waits at most once, for at most a slice and never longer than the send time
+limit allows — in particular an interrupted attempt (EINTR) is awaited, it does not spin. -/
+theorem C18_connect_waits_bounded (blocking : Bool) (limit start : Nat) (first : CResp) (waits : List WResp) :
+    (connectCall blocking limit start first waits).waits.length ≤ 1 ∧
+    ∀ w ∈ (connectCall blocking limit start first waits).waits, w ≤ SLICE ∧ w ≤ limit := by
+  have hw : waitTime start limit start ≤ SLICE ∧ waitTime start limit start ≤ limit := by
+    unfold waitTime leftTime; constructor
+    · exact Nat.min_le_right _ _
+    · have : min U64MAX (start + limit) - start ≤ limit := by
+        have := Nat.min_le_right U64MAX (start + limit); omega
+      exact Nat.le_trans (Nat.min_le_left _ _) this
+  have key : ∀ (r : CResp), (∀ n, r ≠ .moved n) →
+      (connectCall blocking limit start r waits).waits.length ≤ 1 ∧
+      ∀ w ∈ (connectCall blocking limit start r waits).waits, w ≤ SLICE ∧ w ≤ limit := by
+    intro r hr
+    have hcc : connectCall blocking limit start r waits =
+        (if !blocking then ({ ret := -1, errno := errnoOf r, reqs := [⟨[], 1⟩], waits := [], blockingAfter := blocking, elapsed := 0, moved := 0, lastErr := some (errnoOf r) } : Out)
+         else if !underWay (errnoOf r) then { ret := -1, errno := errnoOf r, reqs := [⟨[], 1⟩], waits := [], blockingAfter := blocking, elapsed := 0, moved := 0, lastErr := some (errnoOf r) }
+         else match waits with
+           | .fail :: _ => { ret := -1, errno := errnoOf r, reqs := [⟨[], 1⟩], waits := [waitTime start limit start], blockingAfter := blocking, elapsed := 0, moved := 0, lastErr := some (errnoOf r) }
+           | .full :: _ => { ret := 0, errno := 0, reqs := [⟨[], 1⟩], waits := [waitTime start limit start], blockingAfter := blocking, elapsed := waitTime start limit start, moved := 0, lastErr := some (errnoOf r) }
+           | .ev ns :: _ => { ret := 0, errno := 0, reqs := [⟨[], 1⟩], waits := [waitTime start limit start], blockingAfter := blocking, elapsed := min ns (waitTime start limit start), moved := 0, lastErr := some (errnoOf r) }
+           | [] => { ret := -1, errno := errnoOf r, reqs := [⟨[], 1⟩], waits := [waitTime start limit start], blockingAfter := blocking, elapsed := 0, moved := 0, lastErr := some (errnoOf r) }) := by
+      cases r with
+      | moved n => exact absurd rfl (hr n)
+      | again => rfl
+      | intr => rfl
+      | err e => rfl
+    rw [hcc]
+    split
+    · exact ⟨by simp, by intro w h; simp at h⟩
+    · split
+      · exact ⟨by simp, by intro w h; simp at h⟩
+      · split <;> exact ⟨by simp, by intro w h; simp only [List.mem_singleton] at h; subst h; exact hw⟩
+  cases first with
+  | moved n => unfold connectCall; exact ⟨by simp, by intro w h; simp at h⟩
+  | again => exact key _ (by intro n; simp)
+  | intr => exact key _ (by intro n; simp)
+  | err e => exact key _ (by intro n; simp)
+
+example : (connectCall true U64MAX 1000 .intr [.ev 5]).ret = 0 ∧ (connectCall false U64MAX 1000 .again [.ev 5]).errno = 115 := by decide
+
 end Oc.Props.C18
